@@ -10,6 +10,7 @@
 -/
 import DfolsVerif.Accept.RngAcc
 import DfolsVerif.Proofs.RngSites
+import DfolsVerif.Proofs.RestartGuards
 
 namespace Dfols
 namespace C19
@@ -45,6 +46,12 @@ theorem C19_src_rng_reach :
   ⟨RngSites.draws_located, RngSites.helper_calls_located,
    fun s hs => ⟨(RngSites.method_calls_guarded s hs).1, (RngSites.method_calls_guarded s hs).2.1,
                 (RngSites.method_calls_guarded s hs).2.2.1, (RngSites.method_calls_guarded s hs).2.2.2.1⟩⟩
+
+/-- the one place where the solver turns a random option on by itself: the default growing method becomes the
+    (random) perturbation of the trust-region step exactly for inverse problems, `m < n`, as documented — translated
+    from `solve_main` on every run -/
+theorem C19_growing_default_switch (m n : Int) : Gen.growingSwitchToPerturb m n = true ↔ m < n :=
+  RestartGuards.growingSwitch_iff m n
 
 end C19
 end Dfols
